@@ -288,3 +288,29 @@ func VerifHarness_C03_StaleGrow()       { c03Stale(1, false, false) }
 func VerifHarness_C03_StaleShrink()     { c03Stale(2, false, false) }
 func VerifHarness_C03_StaleUpdateNLP()  { c03Stale(0, true, false) }
 func VerifHarness_C03_StaleGrowNLP()    { c03Stale(1, true, false) }
+
+// a word repeated hundreds of times in one field (term frequencies beyond 8 bits)
+func VerifHarness_C03_ScanRepeats() {
+	n := []int{255, 256, 300}[verifIntRange("repeats", 0, 2)]
+	desc := ""
+	for i := 0; i < n; i++ {
+		if i > 0 {
+			desc += " "
+		}
+		desc += "aa"
+	}
+	mk := func(cmd, d string) Command {
+		c := Command{Command: cmd, Description: d}
+		vFill(&c)
+		return c
+	}
+	db := &Database{Commands: []Command{mk("bb", desc), mk("aa cc", "bb")}}
+	db.BuildUniversalIndex()
+	q := []string{"aa", "bb"}[verifIntRange("query", 0, 1)]
+	res := db.SearchUniversal(q, SearchOptions{Limit: 5, AllPlatforms: true})
+	c03Compare(db, res, c03Reference(db, []string{q}, func(string) float64 { return 1.0 }), "scan, repeated word")
+	verifReach("compared")
+	if len(res) > 0 {
+		verifReach("nonempty")
+	}
+}
